@@ -1,14 +1,160 @@
 /-
-  Driver.C08 — line protocol front end for property C08 (stub: not built yet).
+  Driver.C08 — line protocol for Cholesky, LDLᵀ and QR.  Every case is one `@` line:
+
+    @ <chol|ldlt|qr> <fp|rat> <rows> <cols> <entries row-major> names=<n0>,<n1> via=<entry point>
+    @ <chol|ldlt|qr> f64 <rows> <cols> <kind> <seed> via=…
+
+  Answers: `none` or `some <shape facts> <identity checks> ## <factor entries>`.
+
+  * Before `##`: what C08 speaks about — presence, the documented shapes and names, triangular
+    structure and the defining identities, evaluated exactly on the model's factors (theorems of
+    `Props/C08.lean`: they always hold).  Over `Fp` the square root is an uninterpreted function,
+    so only the identities that do not need `sqrt(x)² = x` are reported there (off-diagonal
+    entries of `L·Lᵀ`; all of `L·D·Lᵀ`); over `Rat` the whole identity.
+  * After `##`: the factor entries of the code-shaped model at the same `Fp` / `Rat` point.
+  * `f64` lines: the model answers what the specification demands of the real-number input class
+    named by `<kind>`; the harness evaluates the float result against the defining identities
+    with a tolerance.  No float is computed or compared here.
 -/
+import EasyMl.Model.Decomp
 import Driver.Parse
 
 namespace Driver.C08
+open EasyMl EasyMl.Decomp Driver
 
 abbrev State := Unit
 
 def init : State := ()
 
-def step (s : State) (_toks : List String) : State × String := (s, "unimplemented")
+/-- exact square root on perfect squares (the generator only produces such radicands) -/
+def ratSqrt (q : Rat) : Rat :=
+  if q.num < 0 then 0 else mkRat (Nat.sqrt q.num.toNat) (Nat.sqrt q.den)
+
+instance : RealFns Rat where
+  sqrt := ratSqrt
+  exp _ := 0
+  ln _ := 0
+  sin _ := 0
+  cos _ := 0
+  pow _ _ := 0
+  pi := 0
+
+def parseRat (s : String) : Option Rat :=
+  match s.splitOn "/" with
+  | [n] => n.toInt?.map fun i => (i : Rat)
+  | [n, d] => match n.toInt?, d.toNat? with
+    | some i, some k => some (mkRat i k)
+    | _, _ => none
+  | _ => none
+
+def parseFp (s : String) : Option Fp := s.toNat?.map Fp.ofNat
+
+def okS (b : Bool) : String := if b then "ok" else "bad"
+
+section
+variable {α : Type} [Add α] [Sub α] [Mul α] [Div α] [Neg α] [Zero α] [One α] [NumOrd α]
+
+def showElems (sh : α → String) (l : List α) : String :=
+  if l.isEmpty then "-" else ",".intercalate (l.map sh)
+
+def allRange (n : Nat) (p : Nat → Bool) : Bool := (List.range n).all p
+
+def isLower (m : Matrix α) : Bool :=
+  allRange m.rows fun i => allRange m.columns fun j => j ≤ i || NumOrd.eq (get m i j) 0
+
+def isUpper (m : Matrix α) : Bool :=
+  allRange m.rows fun i => allRange m.columns fun j => i ≤ j || NumOrd.eq (get m i j) 0
+
+def sumRange (n : Nat) (f : Nat → α) : α := (List.range n).foldl (fun s k => s + f k) 0
+
+/-- `(L·Lᵀ)[i,j] = A[i,j]` for `j ≤ i` (`strict`: `j < i` only) -/
+def cholIdentity (L A : Matrix α) (strict : Bool) : Bool :=
+  let n := L.rows
+  allRange n fun i => allRange (i + 1) fun j =>
+    (strict && i == j) || NumOrd.eq (sumRange n fun k => get L i k * get L j k) (get A i j)
+
+def ldltIdentity (L D A : Matrix α) : Bool :=
+  let n := L.rows
+  allRange n fun i => allRange (i + 1) fun j =>
+    NumOrd.eq (sumRange n fun k => get L i k * get D k k * get L j k) (get A i j)
+
+def isUnitLower (m : Matrix α) : Bool :=
+  isLower m && allRange m.rows fun i => NumOrd.eq (get m i i) 1
+
+def shapeS (names : List String) (m : Matrix α) : String :=
+  s!"{names.getD 0 "r"}:{m.rows},{names.getD 1 "c"}:{m.columns}"
+
+def answerChol [RealFns α] (sh : α → String) (exactSqrt : Bool) (names : List String)
+    (A : Matrix α) : String :=
+  match cholesky A with
+  | none => "none"
+  | some L =>
+    let facts :=
+      if exactSqrt then
+        let pos := allRange L.rows fun i => NumOrd.lt 0 (get L i i)
+        s!"lower={okS (isLower L)} posdiag={okS pos} ident={okS (cholIdentity L A false)}"
+      else s!"lower={okS (isLower L)} offdiag={okS (cholIdentity L A true)}"
+    s!"some shape={shapeS names L} {facts} ## L={showElems sh L.data}"
+
+def answerLdlt (sh : α → String) (names : List String) (A : Matrix α) : String :=
+  match ldlt A with
+  | none => "none"
+  | some (L, D) =>
+    s!"some lshape={shapeS names L} dshape={shapeS names D} unitlower={okS (isUnitLower L)} " ++
+    s!"diag={okS (isLower D && isUpper D)} ident={okS (ldltIdentity L D A)} " ++
+    s!"## L={showElems sh L.data} D={showElems sh D.data}"
+
+def answerQr [RealFns α] (sh : α → String) (names : List String) (A : Matrix α) : String :=
+  match qr A with
+  | none => "none"
+  | some (Q, R) =>
+    s!"some qshape={shapeS names Q} rshape={shapeS names R} " ++
+    s!"## Q={showElems sh Q.data} R={showElems sh R.data}"
+
+end
+
+/-- what the specification demands of the `f64` input classes of the generator -/
+def answerF64 (alg kind : String) (rows cols : Nat) : String :=
+  match alg with
+  | "chol" =>
+    if rows ≠ cols then "none"
+    else if kind = "spd" then "some lower=ok posdiag=ok ident=ok" else "none"
+  | "ldlt" =>
+    if rows ≠ cols then "none"
+    else if kind = "spd" then "some unitlower=ok diag=ok ident=ok" else "none"
+  | _ =>
+    if cols > rows then "none" else "some shapes=ok product=ok orthogonal=ok upper=ok"
+
+def step (s : State) (toks : List String) : State × String :=
+  match toks with
+  | "@" :: alg :: ty :: rowsS :: colsS :: dataS :: rest =>
+    match rowsS.toNat?, colsS.toNat? with
+    | some rows, some cols =>
+      let names := parseNames ((optArg "names" rest).getD "r,c")
+      if ty = "f64" then (s, answerF64 alg dataS rows cols)
+      else if ty = "fp" then
+        match (splitComma dataS).mapM parseFp with
+        | none => (s, "bad-op")
+        | some a =>
+          let A : Matrix Fp := ⟨a, rows, cols⟩
+          if a.length ≠ rows * cols then (s, "bad-op")
+          else match alg with
+            | "chol" => (s, answerChol toString false names A)
+            | "ldlt" => (s, answerLdlt toString names A)
+            | "qr" => (s, answerQr toString names A)
+            | _ => (s, "bad-op")
+      else if ty = "rat" then
+        match (splitComma dataS).mapM parseRat with
+        | none => (s, "bad-op")
+        | some a =>
+          let A : Matrix Rat := ⟨a, rows, cols⟩
+          if a.length ≠ rows * cols then (s, "bad-op")
+          else match alg with
+            | "chol" => (s, answerChol showRat true names A)
+            | "ldlt" => (s, answerLdlt showRat names A)
+            | _ => (s, "bad-op")
+      else (s, "bad-op")
+    | _, _ => (s, "bad-op")
+  | _ => (s, "bad-op")
 
 end Driver.C08
